@@ -3,3 +3,4 @@ import Props.C08
 #print axioms C08.client_names_preserved
 #print axioms C08.own_namespace_excluded_only
 #print axioms C08.client_uses_collected
+#print axioms C08.client_imports_collected
